@@ -170,6 +170,7 @@ pub fn generate(seed: u64, thorough: bool, emit: &mut dyn FnMut(String)) {
         }
         emit(format!("geom {}", req_vec_f(&xs)));
     }
+    harden(&mut rng, thorough, emit);
     let rounds = if thorough { 30000 } else { 600 };
     for _ in 0..rounds {
         let n = length(&mut rng);
@@ -205,5 +206,212 @@ pub fn generate(seed: u64, thorough: bool, emit: &mut dyn FnMut(String)) {
         // keep the scaled sample inside the range of the property
         let ss: Vec<f64> = xs.iter().map(|x| x / 256.0).collect();
         emit(format!("scale {k} {} {}", rbits(c), req_vec_f(&ss)));
+    }
+}
+
+/// log-uniform magnitudes around `10^e`
+fn around(rng: &mut Rng, e: f64) -> f64 {
+    10f64.powf(e) * rng.uniform(0.5, 1.0)
+}
+
+fn emit_all(emit: &mut dyn FnMut(String), xs: &[f64], k: usize) {
+    emit(format!("mean {}", req_vec_f(xs)));
+    emit(format!("std {} {}", if k % 2 == 0 { "p" } else { "s" }, req_vec_f(xs)));
+    emit(format!("samplepop {}", req_vec_f(xs)));
+}
+
+/// Families added after the seeded-change rounds (scale, size, zeros/signs, NaN); see DESIGN.md §15.
+fn harden(rng: &mut Rng, thorough: bool, emit: &mut dyn FnMut(String)) {
+    let reps = if thorough { 12 } else { 1 };
+
+    // (a) SIZE: every length 0..=200 at least once per request kind (blocked / unrolled loops: 4, 8, 16, 64,
+    // "the 9th element"), the lengths just beyond the quantifier and around powers of two
+    for _ in 0..reps {
+        for n in (0..=200usize).chain([201, 255, 256, 257, 511, 512, 513, 1000, 1024, 1025]) {
+            let style = rng.below(8);
+            let xs = sample(rng, n, style, false);
+            emit_all(emit, &xs, n);
+            let gs = if n % 2 == 0 { 6 } else { style };
+            let ps = sample(rng, n, gs, true);
+            emit(format!("geom {}", req_vec_f(&ps)));
+        }
+    }
+
+    // (b) geometric mean: samples whose product over ANY chunk of c consecutive values under- or overflows
+    // although the mean itself is an ordinary number (plain products, products by blocks of 4/8/16/64, pairwise
+    // products): every value about 10^(-+330/c), lengths c, c+1, 2c+1, 3c and 200
+    for &c in &[2usize, 3, 4, 5, 7, 8, 9, 15, 16, 17, 31, 32, 33, 63, 64, 65, 100, 127, 128, 129, 199, 200] {
+        for sign in [-1.0f64, 1.0] {
+            let e = (sign * 330.0 / c as f64).clamp(-300.0, 300.0);
+            for n in [c, c + 1, 2 * c + 1, 3 * c, 200] {
+                if n > 1030 {
+                    continue;
+                }
+                for _ in 0..reps {
+                    let xs: Vec<f64> = (0..n).map(|_| around(rng, e)).collect();
+                    emit(format!("geom {}", req_vec_f(&xs)));
+                }
+            }
+        }
+    }
+    // tiny and huge values in one sample: the product is ordinary, partial products are not (ascending,
+    // descending, alternating, blocks of 8)
+    for k in 0..24 * reps {
+        let n = *rng.pick(&[2usize, 8, 9, 16, 17, 24, 64, 65, 128, 200]);
+        let e = *rng.pick(&[5.9, 20.0, 45.0, 100.0, 150.0, 300.0]);
+        let mut xs: Vec<f64> = (0..n).map(|i| around(rng, if i % 2 == 0 { e } else { -e })).collect();
+        match k % 4 {
+            0 => xs.sort_by(|a, b| a.partial_cmp(b).unwrap()),
+            1 => xs.sort_by(|a, b| b.partial_cmp(a).unwrap()),
+            2 => {
+                // blocks of 8 of one kind
+                xs.sort_by(|a, b| a.partial_cmp(b).unwrap());
+                let (lo, hi) = xs.split_at(n / 2);
+                let mut ys = Vec::new();
+                let (mut i, mut j) = (0, 0);
+                while i < lo.len() || j < hi.len() {
+                    for _ in 0..8 {
+                        if i < lo.len() {
+                            ys.push(lo[i]);
+                            i += 1;
+                        }
+                    }
+                    for _ in 0..8 {
+                        if j < hi.len() {
+                            ys.push(hi[j]);
+                            j += 1;
+                        }
+                    }
+                }
+                xs = ys;
+            }
+            _ => {}
+        }
+        emit(format!("geom {}", req_vec_f(&xs)));
+    }
+    // values next to 1 at every distance, constant positive samples of every magnitude, the smallest normal
+    // and subnormal numbers (subnormal results are compared with the model only)
+    for k in 1..=17 {
+        let d = 10f64.powi(-k);
+        for n in [1usize, 2, 7, 8, 9, 64, 200] {
+            let xs: Vec<f64> = (0..n).map(|i| if i % 2 == 0 { 1.0 + d } else { 1.0 - d / 2.0 }).collect();
+            emit(format!("geom {}", req_vec_f(&xs)));
+        }
+    }
+    for e in [-323, -310, -308, -300, -200, -100, -39, -38, -20, -7, -6, 0, 6, 7, 20, 38, 39, 100, 200, 300, 308] {
+        let v = if e <= -308 { 10f64.powi(e + 300) * 1e-300 } else { 10f64.powi(e) };
+        for n in [1usize, 3, 8, 9, 16, 17, 65, 200] {
+            emit(format!("geom {}", req_vec_f(&vec![v; n])));
+            if (-150..=150).contains(&e) {
+                emit(format!("std p {}", req_vec_f(&vec![v; n])));
+                emit(format!("mean {}", req_vec_f(&vec![-v; n])));
+            }
+        }
+    }
+    for v in [f64::MIN_POSITIVE, 5e-324, f64::MAX, 1.7976931348623157e308 / 2.0] {
+        for n in [1usize, 2, 9, 200] {
+            emit(format!("geom {}", req_vec_f(&vec![v; n])));
+            emit(format!("mean {}", req_vec_f(&vec![v; n])));
+            emit(format!("std s {}", req_vec_f(&vec![v; n])));
+        }
+    }
+
+    // (c) SCALE, mean and deviation: whole samples of magnitude 10^e, e = -300..300, and mixed exponents
+    for k in 0..120 * reps {
+        let e = rng.range(-300, 300) as f64;
+        let n = *rng.pick(&[1usize, 2, 3, 5, 8, 9, 16, 17, 33, 64, 100, 200]);
+        let xs: Vec<f64> = (0..n).map(|_| around(rng, e) * if rng.chance(1, 2) { -1.0 } else { 1.0 }).collect();
+        emit_all(emit, &xs, k);
+        if e.abs() <= 140.0 {
+            let c = 2f64.powi(rng.range(-20, 20) as i32) * if rng.chance(1, 2) { -1.0 } else { 1.0 };
+            emit(format!("scale {} {} {}", if k % 2 == 0 { "p" } else { "s" }, rbits(c), req_vec_f(&xs)));
+        }
+    }
+    for k in 0..40 * reps {
+        let n = *rng.pick(&[2usize, 5, 8, 9, 17, 64, 200]);
+        let span = *rng.pick(&[10.0, 30.0, 100.0, 140.0]);
+        let xs: Vec<f64> = (0..n)
+            .map(|_| {
+                let e = rng.uniform(-span, span);
+                around(rng, e) * if rng.chance(1, 2) { -1.0 } else { 1.0 }
+            })
+            .collect();
+        emit_all(emit, &xs, k);
+    }
+    // a narrow sample at a large offset, at every relative width 10^-1 .. 10^-16 and every offset (a variance
+    // computed as E[x^2] - mean^2, a shifted or single-pass formula: cancellation)
+    for w in 1..=16 {
+        for &base in &[1.0f64, -1.0, 1e3, 999_999.0, -1e6, 0.1, 1e-3, 1e9, 1e15, 1e100, 1e-100] {
+            let n = *rng.pick(&[2usize, 3, 4, 8, 9, 20, 64, 200]);
+            let width = base.abs() * 10f64.powi(-w);
+            let xs: Vec<f64> = (0..n).map(|_| base + rng.uniform(-width, width)).collect();
+            emit(format!("std {} {}", if w % 2 == 0 { "p" } else { "s" }, req_vec_f(&xs)));
+            if w % 4 == 1 {
+                emit(format!("samplepop {}", req_vec_f(&xs)));
+                emit(format!("mean {}", req_vec_f(&xs)));
+            }
+        }
+    }
+    // exact translations by large offsets: small integers (or dyadics) plus 2^20 .. 2^50
+    for k in 0..40 * reps {
+        let n = *rng.pick(&[2usize, 3, 8, 9, 16, 17, 64, 200]);
+        let xs: Vec<f64> = (0..n).map(|_| if k % 2 == 0 { rng.range(-100, 100) as f64 } else { rng.dyadic(64, 2) }).collect();
+        let c = 2f64.powi(rng.range(20, 50) as i32) * if rng.chance(1, 2) { -1.0 } else { 1.0 };
+        emit(format!("translate {} {} {}", if k % 4 < 2 { "p" } else { "s" }, rbits(c), req_vec_f(&xs)));
+    }
+
+    // (d) ZEROS / SIGNS / TIES
+    for k in 0..30 * reps {
+        let n = *rng.pick(&[1usize, 2, 3, 4, 8, 9, 33, 200]);
+        let xs: Vec<f64> = match k % 10 {
+            // all negative
+            0 => (0..n).map(|_| -rng.uniform(1e-3, 1e6)).collect(),
+            // the maximum is zero, the rest negative
+            1 => (0..n).map(|i| if i == n / 2 { 0.0 } else { -rng.uniform(1.0, 1e6) }).collect(),
+            // the minimum is zero, the rest positive
+            2 => (0..n).map(|i| if i == 0 { 0.0 } else { rng.uniform(1.0, 1e6) }).collect(),
+            // symmetric: the mean is exactly 0
+            3 => (0..n).map(|i| (if i % 2 == 0 { 1.0 } else { -1.0 }) * ((i / 2 + 1) as f64)).collect(),
+            // signed zeros only
+            4 => (0..n).map(|i| if i % 2 == 0 { -0.0 } else { 0.0 }).collect(),
+            5 => vec![-0.0; n],
+            // two values
+            6 => (0..n).map(|i| if i % 2 == 0 { 1e6 } else { -1e6 }).collect(),
+            7 => (0..n).map(|i| if i < n / 2 { 3.0 } else { 3.0 + f64::EPSILON * 4.0 }).collect(),
+            // negative constant, leading zeros then data
+            8 => vec![-rng.uniform(1.0, 1e6); n],
+            _ => (0..n).map(|i| if i < n / 2 { 0.0 } else { rng.range(-9, 9) as f64 }).collect(),
+        };
+        emit_all(emit, &xs, k);
+        emit(format!("std {} {}", if k % 2 == 0 { "s" } else { "p" }, req_vec_f(&xs)));
+        emit(format!("translate p {} {}", rbits(-7.0), req_vec_f(&xs)));
+        for c in [0.0, -0.0, -1.0, 1.0, -0.5] {
+            emit(format!("scale s {} {}", rbits(c), req_vec_f(&xs)));
+        }
+    }
+
+    // (e) NaN / infinities / data outside the geometric mean's domain at every position (correspondence only)
+    for n in [1usize, 2, 3, 8, 9, 17] {
+        for pos in [0, n / 2, n - 1] {
+            for bad in [f64::NAN, f64::INFINITY, f64::NEG_INFINITY, 0.0, -0.0, -1.0] {
+                let mut xs: Vec<f64> = (0..n).map(|_| rng.uniform(0.5, 9.0)).collect();
+                xs[pos] = bad;
+                emit(format!("geom {}", req_vec_f(&xs)));
+                if bad.is_nan() || bad.is_infinite() {
+                    emit_all(emit, &xs, pos);
+                }
+            }
+        }
+        let mut xs: Vec<f64> = (0..n.max(2)).map(|_| rng.uniform(-9.0, 9.0)).collect();
+        xs[0] = f64::INFINITY;
+        xs[1] = f64::NEG_INFINITY;
+        emit_all(emit, &xs, n);
+    }
+    // sums that overflow although every value is finite (correspondence only)
+    for n in [2usize, 3, 9, 200] {
+        let xs = vec![f64::MAX / 1.5; n];
+        emit_all(emit, &xs, n);
+        let ys: Vec<f64> = (0..n).map(|i| if i % 2 == 0 { f64::MAX } else { -f64::MAX }).collect();
+        emit_all(emit, &ys, n);
     }
 }
